@@ -114,9 +114,15 @@ class Oracle:
         own = op.kind.split(".")[0]
         # boundary / to-be-rejected follow-ups are tried once per (state, operation, cause): which amount class provoked the cause does not matter for
         # what a rejection may leave behind (the snapshot dict is the same object for every call made from one state)
-        seen = snap.setdefault("_c04_seen", set())
-        with_deviations = (op.kind, cause) not in seen
-        seen.add((op.kind, cause))
+        seen = snap.setdefault("_c04_seen", {})
+        n_seen = seen.get((op.kind, cause), 0)
+        seen[(op.kind, cause)] = n_seen + 1
+        with_deviations = n_seen == 0
+        if n_seen >= 2:
+            # the default follow-ups are tried after the first two argument classes that provoke a cause of an operation in a state (the later ones leave the
+            # same kind of thing behind, if anything; their own state comparison above is made for every single call)
+            part.count("lookahead_skipped_same_cause")
+            return
         for nxt in self.world.alphabet(ctx):
             # every default operation, and every boundary / to-be-rejected operation of the market whose call was just rejected (a rejection must not
             # disarm the protection of the NEXT rejected call either)
